@@ -256,8 +256,25 @@ class IntroducerClient(service.Service, Referenceable):
                          parent=lp, level=log.WEIRD, umid="ZAU15Q")
                 # process other announcements that arrived with the bad one
                 continue
+            except Exception as e:
+                # UnknownKeyError, a key or signature that is not base32 or
+                # has the wrong length, a message that is not JSON, a tuple
+                # of the wrong shape, ...: one malformed announcement must
+                # not keep us from processing the others in the batch
+                self.log("malformed inbound announcement (%s: %s): %s"
+                         % (e.__class__.__name__, e, ann_t,),
+                         parent=lp, level=log.WEIRD, umid="ZAU16Q")
+                continue
 
-            self._process_announcement(ann, key_s)
+            try:
+                self._process_announcement(ann, key_s)
+            except Exception as e:
+                # correctly signed, but not a usable announcement (no
+                # service-name, unparseable FURL, incomparable seqnum, ...)
+                self.log("unable to process inbound announcement (%s: %s): %s"
+                         % (e.__class__.__name__, e, ann_t,),
+                         parent=lp, level=log.WEIRD, umid="ZAU17Q")
+                continue
 
     def _process_announcement(self, ann, key_s):
         precondition(isinstance(key_s, bytes), key_s)
